@@ -624,6 +624,108 @@ def check_odd(st):
         batch.close()
 
 
+ANN_SRC = '''
+def AN_callee(first, *rest: ('r', int), **options: ['c']) -> {'ret': 1}:
+    return first
+
+
+def AN_wrapper(a, *args: ('a', str), **kwargs: 'wrapper options') -> ('w',):
+    return AN_callee(*args, **kwargs)
+
+
+def AN_one(x: ('one', 1), y: [1] = None):
+    return x
+
+
+def AN_two(x: ('two', 2), y: {2} = None):
+    return x
+
+
+def AN_fan_out(*args, **kwargs):
+    AN_one(*args, **kwargs)
+    return AN_two(*args, **kwargs)
+
+
+class AN_K(object):
+    def target(self, p: ('t',), *more: ('m',)):
+        return p
+
+    def method(self, *args: ('k',), **kwargs):
+        return self.target(*args, **kwargs)
+'''
+ANN_NAMES = ('AN_wrapper', 'AN_fan_out')
+
+POSTPONED_SRC = '''
+import types
+
+
+def PP_evaluable(a: int, b: 'str' = None) -> float:
+    return a
+
+
+def PP_name_error(a: NotDefinedAnywhere) -> AlsoNot:
+    return a
+
+
+def PP_attribute_error(a: types.nope):
+    return a
+
+
+def PP_type_error(a: 'Decimal' | None, b: 3[int] = 0) -> None[1]:
+    return a
+
+
+def PP_zero_division(a: 1 / 0):
+    return a
+
+
+def PP_value_error(a: int('x')):
+    return a
+
+
+def PP_forwards_to_type_error(t, *args, **kwargs):
+    return PP_type_error(*args, **kwargs)
+
+
+class PP_K(object):
+    def method(self, a: 'x' | None, *args: 1 / 0) -> int('y'):
+        return a
+'''
+POSTPONED_NAMES = ('PP_evaluable', 'PP_name_error', 'PP_attribute_error', 'PP_type_error', 'PP_zero_division',
+                   'PP_value_error', 'PP_forwards_to_type_error', 'PP_K.method')
+
+
+def check_annotated(st):
+    """Annotations are arbitrary objects (ANN_SRC) and, under PEP 563, arbitrary expressions that need not evaluate
+    (POSTPONED_SRC): retrieval and the Sphinx hook have to cope with both."""
+    batch = progs.Batch(prelude='')
+    batch.add(ANN_SRC, 10)
+    batch.load()
+    try:
+        for nm in ANN_NAMES:
+            check_object('annotated:' + nm, batch.get(nm), st, 'annotated')
+        check_object('annotated:AN_K().method', batch.get('AN_K')().method, st, 'annotated')
+    finally:
+        batch.close()
+    batch = progs.Batch(prelude='', future=True)
+    batch.add(POSTPONED_SRC, 10)
+    batch.load()
+    try:
+        modname = batch.modules[0].__name__
+        for nm in POSTPONED_NAMES:
+            obj = batch.modules[0]
+            for part in nm.split('.'):
+                obj = getattr(obj, part)
+            check_object('postponed:' + nm, obj, st, 'annotated')
+            before = st.nviol
+            check_sphinx(modname + '.' + nm, obj, st)
+            for v in st.viol[before:]:
+                v['case'] = {'origin': 'annotated', 'name': nm}
+                v['detail']['object'] = 'postponed:' + nm
+    finally:
+        batch.close()
+
+
 def menagerie():
     """Odd callables."""
     import collections
@@ -734,6 +836,7 @@ def shard(tier, sh):
         check_adversarial(st)
         check_globals_kinds(st)
         check_odd(st)
+        check_annotated(st)
     elif kind == 'menagerie':
         for name, obj in menagerie():
             check_object(name, obj, st, 'menagerie')
@@ -801,6 +904,8 @@ def replay(art):
         check_globals_kinds(st)
     elif c.get('origin') == 'odd':
         check_odd(st)
+    elif c.get('origin') == 'annotated':
+        check_annotated(st)
     else:
         check_adversarial(st)
     return [v['detail'] for v in st.viol] or None
